@@ -151,6 +151,36 @@ class AxisTyper:
         self.prog = prog
         self.conflicts: List[ast.AST] = []
 
+    def _derived(self, name: str, depth: int) -> Optional[str]:
+        """A local bound exactly once, by a plain assignment, to a value of one axis carries that axis
+        (`pix = abs(resolution.x)` is an X quantity whatever it is called)."""
+        if not hasattr(self, "_derived_memo"):
+            self._derived_memo: Dict[str, Optional[str]] = {}
+        if name in self._derived_memo:
+            return self._derived_memo[name]
+        self._derived_memo[name] = None  # recursion guard
+        if name in self.fi.param_names():
+            return None
+        defs = []
+        for n in walk_own(self.fi.node):
+            if isinstance(n, (ast.Assign, ast.AnnAssign, ast.AugAssign, ast.For, ast.With, ast.NamedExpr)) or isinstance(n, ast.comprehension):
+                tg = n.targets if isinstance(n, ast.Assign) else [getattr(n, "target", None)] if not isinstance(n, ast.With) else [i.optional_vars for i in n.items]
+                for t in tg:
+                    if t is not None and any(isinstance(x, ast.Name) and x.id == name for x in ast.walk(t)):
+                        defs.append(n)
+        for n in ast.walk(self.fi.node):
+            if isinstance(n, ast.comprehension) and any(isinstance(x, ast.Name) and x.id == name for x in ast.walk(n.target)):
+                defs.append(n)
+        if len(defs) != 1 or not isinstance(defs[0], ast.Assign) or len(defs[0].targets) != 1 or not isinstance(defs[0].targets[0], ast.Name):
+            return None
+        v = defs[0].value
+        # only scalars built from one axis component: a.x, abs(a.x), a.x * k ...
+        if not any(isinstance(x, ast.Attribute) and x.attr in ATTR_AXIS for x in ast.walk(v)):
+            return None
+        t = self.tag(v, depth + 1)
+        self._derived_memo[name] = t
+        return t
+
     def return_order(self, callee: FuncInfo) -> Optional[Tuple[str, ...]]:
         """Axis order of a 2-tuple returned by a package function (all returns must agree)."""
         key = f"{id(self.prog)}:{callee.qual}"
@@ -173,7 +203,10 @@ class AxisTyper:
         if e is None or depth > 12:
             return None
         if isinstance(e, ast.Name):
-            return self.b.of(e.id)
+            t = self.b.of(e.id)
+            if t is None:
+                t = self._derived(e.id, depth)
+            return t
         if isinstance(e, ast.Attribute):
             if e.attr in ATTR_AXIS:
                 # .x/.y of an axis-pure container (self._xbin ...) still means that axis
@@ -393,6 +426,14 @@ def rule_axis(prog: Program, modules: Set[str]) -> List[Instance]:
                             out.append(Instance("R-AXIS", cid, OK, f"{nm}() receives a ({', '.join(o)})-ordered pair", fi.where(n)))
                         else:
                             out.append(Instance("R-AXIS", cid, BAD, f"`{short(n, 70)}`: {nm}() expects ({', '.join(want_o)}) but `{short(n.args[0], 40)}` is in ({', '.join(o)}) order", fi.where(n)))
+                # ---------------- T8: an isotropic constructor fed from a single axis of an anisotropic source
+                if nm in ("res_",) and len(n.args) == 1 and not n.keywords:
+                    a = n.args[0]
+                    t = ty.tag(a)
+                    comp = [x for x in ast.walk(a) if isinstance(x, ast.Attribute) and x.attr in ATTR_AXIS]
+                    if t is not None and comp:
+                        cid = _cid(fi, "T8:res_", a, counter)
+                        out.append(Instance("R-AXIS", cid, BAD, f"`{short(n, 60)}` builds a square resolution from the {t} component alone: the {'Y' if t == X else 'X'} pixel size of the source is discarded (wrong for non-square pixels)", fi.where(n)))
                 # ---------------- T4: per-axis helpers
                 if nm in PER_AXIS:
                     tags = [(a, ty.tag(a)) for a in list(n.args) + [k.value for k in n.keywords if k.arg not in ("tol",)]]
